@@ -269,7 +269,7 @@ func c03Run(c *core.Ctx) *core.Result {
 		r.Count("prior_dirs_announced_as_symlink_or_fifo", 1)
 	}
 	// one mutation
-	mut := core.Pick(R, []string{"none", "none", "dotdot", "dot", "empty", "updown", "dotdotx", "abs", "unclean", "dup", "order", "childofnondir", "noparent", "hl-unknown", "hl-later", "hl-escape", "hl-nonfile", "data-unsolicited", "data-afterterm", "backslash", "newline", "hugesize", "fin-early", "stat-after-end", "err-packet", "req-from-sender", "hl-via-dest-symlink", "hl-via-dest-symlink", "tmp-name-planted", "random-script", "random-script"})
+	mut := core.Pick(R, []string{"none", "none", "dotdot", "dot", "empty", "updown", "dotdotx", "abs", "unclean", "dup", "order", "childofnondir", "noparent", "hl-unknown", "hl-later", "hl-escape", "hl-nonfile", "data-unsolicited", "data-afterterm", "backslash", "newline", "hugesize", "fin-early", "stat-after-end", "err-packet", "req-from-sender", "hl-via-dest-symlink", "hl-via-dest-symlink", "tmp-name-planted", "random-script", "random-script", "deep-revisit", "deep-revisit"})
 	k := 0
 	if len(stats) > 0 {
 		k = R.Intn(len(stats) + 1)
@@ -413,6 +413,40 @@ func c03Run(c *core.Ctx) *core.Result {
 				}
 			}
 		}
+	case "deep-revisit":
+		// a directory chain whose depth lies around the sizes at which a
+		// growing per-level stack is re-allocated (8..12, 18..22, 38..42);
+		// at the bottom a directory j with a file f, then - the offence - j
+		// again (or a smaller sibling) as a symlink to an outside directory:
+		// if the validator let it pass, f's content would land outside
+		depth := core.Pick(R, []int{8, 9, 10, 11, 12, 18, 19, 20, 21, 22, 38, 39, 40, 41, 42})
+		var chain []*types.Stat
+		p := "zzdeep"
+		chain = append(chain, dirStat(p))
+		for l := 1; l < depth; l++ {
+			p += "/d"
+			chain = append(chain, dirStat(p))
+		}
+		chain = append(chain, dirStat(p+"/j"), fileStat(p+"/j/f"))
+		content[p+"/j/f"] = []byte("pwned")
+		again := p + "/j"
+		if R.P(1, 3) {
+			again = p + "/i"
+		}
+		chain = append(chain, &types.Stat{Path: again, Mode: uint32(os.ModeSymlink | 0777), Linkname: core.Pick(R, []string{outside + "/dir", up + rc + "/outside/dir"})})
+		if R.P(1, 2) {
+			chain = append(chain, fileStat(p+"/j/g"))
+			content[p+"/j/g"] = []byte("pwned")
+		}
+		at := len(stats)
+		for i, st := range stats {
+			if tree.CmpPath(st.Path, "zzdeep") > 0 {
+				at = i
+				break
+			}
+		}
+		stats = append(stats[:at], append(chain, stats[at:]...)...)
+		r.Count("deep_revisit_scripts", 1)
 	case "tmp-name-planted":
 		// legal entries whose names look like the writer's temporary names
 		// (guessable if they were a counter or derived from the path): symlinks
